@@ -82,13 +82,29 @@ def run_spec(draw):
     if bo is not None:
         # spreads may be quoted for some securities only (the others trade at mid)
         spec["bidoffer"] = {t: [bo] * n for t in tickers if draw(st.integers(0, 3)) != 0} or {tickers[0]: [bo] * n}
-    nested = draw(st.integers(0, 4)) == 0
+    nested = draw(st.integers(0, 2)) == 0
     if nested and nt >= 2:
         sub_t = tickers[: nt // 2]
         own_t = tickers[nt // 2 :]
+        if draw(st.booleans()):
+            for t in sub_t:
+                if kinds[t] not in ("FixedIncomeSecurity", "CouponPayingSecurity"):
+                    kinds[t] = draw(st.sampled_from(["FixedIncomeSecurity", "CouponPayingSecurity"]))
+                    for c in children:
+                        if c["sec"] == t:
+                            c["kind"] = kinds[t]
         sw = {t: round(1.0 / len(sub_t), 4) for t in sub_t}
-        sub = {"name": "sub", "kind": "FixedIncomeStrategy", "algos": [["RunDaily", {}], ["WeighSpecified", {"weights": sw}], ["SetNotional", {"frame": "notl"}], ["Rebalance", {}]], "children": [c for c in children if c["sec"] in sub_t]}
+        sub_gate = ["RunDaily", {}]
         w2 = {k: v for k, v in w.items() if k in own_t}
+        if all(kinds[t] in ("FixedIncomeSecurity", "CouponPayingSecurity") for t in sub_t) and draw(st.integers(0, 2)) != 0:
+            # the parent targets the nested book as a whole: it builds a long/short book once, afterwards the parent's Rebalance scales it
+            # (notional pushed down in proportion to the children's signed weights) to weight x notional
+            sw = {t: round(v * (-1 if draw(st.integers(0, 2)) == 0 else 1), 4) for t, v in sw.items()}
+            sub_gate = ["RunOnce", {}]
+            w2 = {k: round(v * 0.5, 4) for k, v in w2.items()}
+            w2["sub"] = draw(st.sampled_from([0.5, 0.25, 0.4]))
+            spec["target_sub"] = True
+        sub = {"name": "sub", "kind": "FixedIncomeStrategy", "algos": [sub_gate, ["WeighSpecified", {"weights": sw}], ["SetNotional", {"frame": "notl"}], ["Rebalance", {}]], "children": [c for c in children if c["sec"] in sub_t]}
         algos = [["Probe", {"key": "c17pre", "run_always": True}]] + gate + [["WeighSpecified", {"weights": w2}], ["SetNotional", {"frame": "notl"}], ["Rebalance", {}], ["Probe", {"key": "c17post"}]]
         spec["weights"] = w2
         spec["tree"] = {"name": "root", "kind": "FixedIncomeStrategy", "algos": algos, "children": [sub] + [c for c in children if c["sec"] in own_t]}
@@ -106,19 +122,20 @@ def case_run(ctx, spec):
     def cb_post(algo, target):
         if target is holder.get("root"):
             N = target.temp.get("notional_value")
-            post.append((target.now, N, {c: ch.notional_value for c, ch in target.children.items()}, {c: ch.weight for c, ch in target.children.items()}, target.notional_value))
+            post.append((target.now, N, {c: ch.notional_value for c, ch in target.children.items()}, {c: ch.weight for c, ch in target.children.items()}, target.notional_value, dict(holder.get("pre_notl") or {})))
 
     interp.Probe.registry["c17post"] = cb_post
     def cb_pre(algo, target):
         # balance sheet at the start of the stack, right after the date's first update (coupons just swept into cash)
         if target is holder.get("root"):
+            holder["pre_notl"] = {c: ch.notional_value for c, ch in target.children.items()}
             v = target.value
             tot = target.capital + sum(ch.value for ch in target.children.values())
             if abs(v - tot) > 1e-9 * max(abs(v), 1e6) + 1e-6:
                 raise Violation("on %s before the stack runs: value %r != cash %r + children %r" % (target.now, v, target.capital, tot - target.capital), signature="c17:value-at-open")
 
     interp.Probe.registry["c17pre"] = cb_pre
-    base_spec = {k: v for k, v in spec.items() if k not in ("kinds", "weights", "nested")}
+    base_spec = {k: v for k, v in spec.items() if k not in ("kinds", "weights", "nested", "target_sub")}
     try:
         b = interp.mk_backtest(bt, base_spec)
         holder["root"] = b.strategy
@@ -195,11 +212,20 @@ def case_run(ctx, spec):
         if not np.allclose(col[okr], exp[okr], rtol=1e-12, atol=1e-12):
             raise Violation("reported weight of %s is not notional / root notional" % m.full_name, signature="c17:report-weights")
     # targets right after Rebalance
-    for now, N, notls, ws, tot in post:
+    sub_scaled = False
+    for now, N, notls, ws, tot, pre in post:
         if N is None or (isinstance(N, float) and np.isnan(N)):
             continue
         for k, w in spec["weights"].items():
             ch = s.children[k] if k in s.children else None
+            if ch is not None and isinstance(ch, bt.core.StrategyBase):
+                # a nested book that already holds positions is scaled as a whole to weight x notional (a flat one has no weights to spread by)
+                if abs(pre.get(k, 0.0)) > 1e-9:
+                    if abs(notls.get(k, 0.0) - w * N) > 1e-9 * max(abs(N), 1.0) + 1e-6:
+                        raise Violation("after Rebalance on %s with notional %r: nested strategy %s (notional %r before) has notional %r, expected weight %r x %r = %r" % (now, N, k, pre.get(k), notls.get(k, 0.0), w, N, w * N), signature="c17:target-notional:substrategy")
+                    if abs(pre.get(k, 0.0) - w * N) > 1e-6:
+                        sub_scaled = True
+                continue
             if ch is None:
                 if abs(w * N) > 1e-9:
                     raise Violation("target %s never created" % k, signature="c17:target-missing")
@@ -244,7 +270,7 @@ def case_run(ctx, spec):
             raise Violation("renormalised price row %d is %r, expected %r" % (i, got[i], exp[i]), signature="c17:renorm")
     if s.bankrupt:
         raise Violation("fixed-income root flagged bankrupt", signature="c17:bankrupt")
-    labs = sorted(set(spec["kinds"].values())) + (["nested"] if spec.get("nested") else [])
+    labs = sorted(set(spec["kinds"].values())) + (["nested"] if spec.get("nested") else []) + (["nested_book_targeted"] if spec.get("target_sub") else []) + (["nested_book_scaled"] if sub_scaled else [])
     return {"nontrivial": coup_held, "labels": labs}
 
 
